@@ -21,6 +21,8 @@ theorem c02_on_source (c : Cfg) (pre : Nat → Option File)
   c02_preexisting_untouched taskSem generated_wf_c02 c pre hex n p
 
 
+theorem generated_all_ops_known_c02 : taskSemKnown = true := by decide
+
 -- BEGIN PINS (written by bin/mkpins; do not edit by hand)
 /-- the Go functions this property's model and obligations were written against have exactly the
 pinned skeletons (SHA-256 prefix of the atom list) -/
@@ -36,6 +38,7 @@ theorem pinned_skeletons_c02 :
 -- END PINS
 
 end SciVerif.Tie
+#print axioms SciVerif.Tie.generated_all_ops_known_c02
 #print axioms SciVerif.Tie.pinned_skeletons_c02
 #print axioms SciVerif.Tie.generated_wf_c02
 #print axioms SciVerif.Tie.generated_outcheck_all
